@@ -20,13 +20,21 @@ EVALS = {"n": 0}
 _installed = []
 
 
-def wrap(cls, name, pre_capture, post_check):
+def wrap(cls, name, pre_capture, post_check, on_raise=None):
     real = getattr(cls, name)
 
     @functools.wraps(real)
     def w(self, *a, **kw):
         cap = pre_capture(self, *a, **kw)
-        res = real(self, *a, **kw)
+        try:
+            res = real(self, *a, **kw)
+        except ContractViolation:
+            raise
+        except Exception as e:      # noqa
+            if on_raise is not None:
+                EVALS["n"] += 1
+                on_raise(self, cap, e, *a, **kw)
+            raise
         EVALS["n"] += 1
         post_check(self, cap, res, *a, **kw)
         return res
@@ -79,7 +87,117 @@ def install_market_price():
     wrap(Market, "_update_market_price", ump_pre, ump_post)
 
 
-INSTALLERS = {"market_price": install_market_price}
+# ----------------------------------------------------------------------------- events (C14, C15, C16, C09)
+def _order_fields(o):
+    return (o.is_buy, o.kind, o.volume, o.price, o.ttl, o.agent_id, o.market_id)
+
+
+def install_events():
+    from pams.events import PriceLimitRule, OrderMistakeShock, TradingHaltRule, FundamentalPriceShock
+
+    def pl_pre(rule, simulator, order):
+        m = simulator.id2market[order.market_id]
+        return dict(fields=_order_fields(order), target=m in rule.target_markets.values(), p0=m.get_market_price(0), r=rule.trigger_change_rate)
+
+    def pl_post(rule, c, res, simulator, order):
+        f = c["fields"]
+        if not c["target"]:
+            if _order_fields(order) != f:
+                raise ContractViolation("PriceLimitRule.hooked_before_order", "orders for markets that are not targets are left unchanged", (f, _order_fields(order)))
+            return
+        if (order.price is None) != (f[3] is None):
+            raise ContractViolation("PriceLimitRule.hooked_before_order", "market orders pass unchanged")
+        if f[3] is not None:
+            lo, hi = c["p0"] * (1 - c["r"]), c["p0"] * (1 + c["r"])
+            if not (lo - 1e-9 <= order.price <= hi + 1e-9):
+                raise ContractViolation("PriceLimitRule.hooked_before_order", "target market: accepted limit price lies in the band", (order.price, lo, hi))
+            if lo <= f[3] <= hi and order.price != f[3]:
+                raise ContractViolation("PriceLimitRule.hooked_before_order", "target market: a price inside the band is unchanged", (f[3], order.price))
+
+    def pl_raise(rule, c, e, simulator, order):
+        if not c["target"]:
+            raise ContractViolation("PriceLimitRule.hooked_before_order", "no-raise: orders for markets that are not targets are accepted unchanged", repr(e))
+    wrap(PriceLimitRule, "hooked_before_order", pl_pre, pl_post, pl_raise)
+
+    def ms_pre(ev, simulator, order):
+        m = simulator.id2market[order.market_id]
+        return dict(fields=_order_fields(order), trig=ev.triggerd, same=order.market_id == ev.target_market.market_id, mp=m.get_market_price())
+
+    def ms_post(ev, c, res, simulator, order):
+        if c["trig"] or not c["same"]:
+            if _order_fields(order) != c["fields"] or ev.triggerd != c["trig"]:
+                raise ContractViolation("OrderMistakeShock.hooked_before_order", "only the first order submitted to the target market at the trigger time is replaced",
+                                        dict(before=c["fields"], after=_order_fields(order), order_market=order.market_id, target=ev.target_market.market_id))
+            return
+        exp = (ev.price_change_rate > 0.0, LIMIT_ORDER, ev.order_volume, c["mp"] * (1 + ev.price_change_rate), ev.order_time_length)
+        got = (order.is_buy, order.kind, order.volume, order.price, order.ttl)
+        if got != exp or not ev.triggerd:
+            raise ContractViolation("OrderMistakeShock.hooked_before_order", "replacement order: side by sign of rate, limit, configured volume/lifetime, price = market price x (1 + rate)", (got, exp))
+    wrap(OrderMistakeShock, "hooked_before_order", ms_pre, ms_post)
+
+    def th_pre(ev, simulator, market):
+        s = simulator.current_session
+        return dict(flag=None if s is None else s.with_order_execution, running=market._is_running, halted=getattr(ev, "_verif_halted", {}).get(id(market), False),
+                    t=market.get_time(), started=ev.halting_time_started, length=ev.halting_time_length, target=market in ev.target_markets.values())
+
+    def th_post(ev, c, res, simulator, market):
+        s = simulator.current_session
+        cfg = getattr(s, "_verif_configured_exec", None)
+        if s is not None and cfg is False and s.with_order_execution:
+            raise ContractViolation("TradingHaltRule.hooked_before_step_for_market", "a session configured without order execution never gets execution switched on", dict(time=c["t"]))
+        if not c["halted"] and (market._is_running != c["running"] or (s is not None and s.with_order_execution != c["flag"])):
+            raise ContractViolation("TradingHaltRule.hooked_before_step_for_market", "the rule resumes only what it halted itself", dict(time=c["t"], running=(c["running"], market._is_running)))
+        if c["halted"] and c["target"] and c["t"] > c["started"] + c["length"]:
+            if not market._is_running:
+                raise ContractViolation("TradingHaltRule.hooked_before_step_for_market", "a halted target resumes at the step after the halt length", dict(time=c["t"]))
+            ev._verif_halted[id(market)] = False
+    wrap(TradingHaltRule, "hooked_before_step_for_market", th_pre, th_post)
+
+    def ae_pre(ev, simulator, execution_log):
+        m = simulator.id2market[execution_log.market_id]
+        return dict(running=m._is_running, p0=m.get_market_price(0), mp=m.get_market_price(), count=ev.activation_count, target=m in ev.target_markets.values(), m=m, t=m.time)
+
+    def ae_post(ev, c, res, simulator, execution_log):
+        m = c["m"]
+        should = c["running"] and c["target"] and abs(c["p0"] - c["mp"]) >= abs(c["p0"] * ev.trigger_change_rate * (c["count"] + 1))
+        if should:
+            if m._is_running or ev.activation_count != c["count"] + 1 or ev.halting_time_started != c["t"]:
+                raise ContractViolation("TradingHaltRule.hooked_after_execution", "deviation >= rate x (halts + 1) on a running target: the market stops at once", dict(t=c["t"]))
+            if not hasattr(ev, "_verif_halted"):
+                ev._verif_halted = {}
+            ev._verif_halted[id(m)] = True
+        else:
+            if m._is_running != c["running"] or ev.activation_count != c["count"]:
+                raise ContractViolation("TradingHaltRule.hooked_after_execution", "no halt below the line / on non-targets / on stopped markets", dict(t=c["t"], target=c["target"]))
+    wrap(TradingHaltRule, "hooked_after_execution", ae_pre, ae_post)
+
+    def fs_pre(ev, simulator, market):
+        t = market.get_time()
+        return dict(t=t, f=market.get_fundamental_price(t), others={m.market_id: m.get_fundamental_price(m.get_time()) for m in simulator.markets if m is not market and m.get_time() >= 0})
+
+    def fs_post(ev, c, res, simulator, market):
+        if market is not ev.target_market or not (ev.trigger_time <= c["t"] < ev.trigger_time + ev.shock_time_length):
+            raise ContractViolation("FundamentalPriceShock.hooked_before_step_for_market", "shock applied outside its window or to another market", dict(t=c["t"], market=market.market_id))
+        exp = c["f"] * (1 + ev.price_change_rate)
+        if abs(market.get_fundamental_price(c["t"]) - exp) > 1e-9 * max(1.0, abs(exp)):
+            raise ContractViolation("FundamentalPriceShock.hooked_before_step_for_market", "fundamental price multiplied by (1 + rate)", (market.get_fundamental_price(c["t"]), exp))
+        for m in simulator.markets:
+            if m.market_id in c["others"] and type(m).__name__ == "Market" and m.get_fundamental_price(m.get_time()) != c["others"][m.market_id]:
+                raise ContractViolation("FundamentalPriceShock.hooked_before_step_for_market", "no other market's fundamental price changes", m.market_id)
+    wrap(FundamentalPriceShock, "hooked_before_step_for_market", fs_pre, fs_post)
+
+    # ghost: the configured execution flag of each session
+    from pams.session import Session
+
+    def ss_pre(s, settings, *a, **k):
+        return None
+
+    def ss_post(s, c, res, settings, *a, **k):
+        s._verif_configured_exec = settings.get("withOrderExecution")
+    wrap(Session, "setup", ss_pre, ss_post)
+
+
+INSTALLERS = {"market_price": install_market_price, "events": install_events}
 
 
 def install(names):
